@@ -739,6 +739,79 @@ func (vc *VC) havocTyped(act *Act, ns, before *State, lf loopFacts) {
 			vc.assume(ns, fmt.Sprintf("(forall ((r Int) (j Int)) (! (=> (and (= (typ r) %d) %s) (= (select (select %s r) j) (select (select %s r) j))) :pattern ((select (select %s r) j))))", id, and(outs...), pr[0], pr[1], pr[0]))
 		}
 	}
+	// ground instances of the two axioms above for every object already known by reference
+	// (E-matching does not reliably see select terms produced by array reasoning)
+	known := map[string]bool{}
+	var refs []string
+	for a := act; a != nil; a = a.parent {
+		for _, v := range a.env {
+			var r string
+			switch x := v.(type) {
+			case PtrV:
+				r = x.ref
+			case MapV:
+				r = x.ref
+			case SliceV:
+				r = x.ref
+			}
+			if r != "" && r != "0" && isAtom(r) && !known[r] {
+				known[r] = true
+				refs = append(refs, r)
+			}
+		}
+	}
+	for _, r := range vc.seenRefs {
+		if !known[r] {
+			known[r] = true
+			refs = append(refs, r)
+		}
+	}
+	if len(refs) > 120 {
+		refs = refs[len(refs)-120:]
+	}
+	for _, r := range refs {
+		otherR := strings.ReplaceAll(other, "(typ r)", "(typ "+r+")")
+		for _, pr := range [][2]string{{nmi, before.mi}, {nmr, before.mr}} {
+			vc.assume(ns, implies(otherR, fmt.Sprintf("(= (select %s %s) (select %s %s))", pr[0], r, pr[1], r)))
+		}
+		for _, id := range ids {
+			if tw.whole[id] {
+				continue
+			}
+			for _, pr := range [][2]string{{nmi, before.mi}, {nmr, before.mr}} {
+				row := fmt.Sprintf("(select %s %s)", pr[1], r)
+				for _, rg := range tw.ranges[id] {
+					for j := rg[0]; j < rg[1]; j++ {
+						row = fmt.Sprintf("(store %s %d (select (select %s %s) %d))", row, j, pr[0], r, j)
+					}
+				}
+				vc.assume(ns, implies(fmt.Sprintf("(= (typ %s) %d)", r, id), fmt.Sprintf("(= (select %s %s) %s)", pr[0], r, row)))
+			}
+		}
+	}
+	// every write in the body is frame-checked: pre-existing objects outside the function's frame
+	// keep their rows whatever their type
+	if vc.frameOn {
+		cond := "(and (< r alloc0)"
+		usable := true
+		for _, it := range vc.frame {
+			switch it.kind {
+			case "everything", "region":
+				usable = false
+			case "obj", "range":
+				cond += fmt.Sprintf(" (not (= r %s))", it.ref)
+			}
+		}
+		cond += ")"
+		if usable {
+			for _, pr := range [][2]string{{nmi, before.mi}, {nmr, before.mr}} {
+				vc.assume(ns, fmt.Sprintf("(forall ((r Int)) (! (=> %s (= (select %s r) (select %s r))) :pattern ((select %s r))))", cond, pr[0], pr[1], pr[0]))
+				for _, r := range refs {
+					vc.assume(ns, implies(strings.ReplaceAll(cond, " r", " "+r), fmt.Sprintf("(= (select %s %s) (select %s %s))", pr[0], r, pr[1], r)))
+				}
+			}
+		}
+	}
 	// non-escaping locals the body does not store to keep their rows even when their type is written
 	stored := map[string]bool{}
 	for a := range lf.localsStored {
@@ -781,7 +854,7 @@ func (vc *VC) havocLoopAll(act *Act, ns, before *State, lf loopFacts) {
 	// frame-based preservation: every write in the body is frame-checked, so pre-existing
 	// objects outside the declared frame are unchanged.
 	if vc.frameOn {
-		cond := "(and (> r 0) (< r alloc0)"
+		cond := "(and (< r alloc0)"
 		for _, it := range vc.frame {
 			switch it.kind {
 			case "everything", "region":
